@@ -402,18 +402,20 @@ NumChoices == IF Rogue THEN Nums
 BaseChoices == IF Rogue \/ Len(chain) = 0 THEN 0..MaxTx
                ELSE {Len(chain[Len(chain)].txs), (Len(chain[Len(chain)].txs) + 1) % (MaxTx + 1)}
 
-(* one top-level disjunct per case of the code (used with -coverage: every case must be reached) *)
-StorageNextNamed ==
-  \/ \E b \in FullBlocks, num \in NumChoices, o \in OldestChoices, cls \in ClassSets : Bootstrap(b, num, o, cls)
-  \/ \E b \in FullBlocks, num \in NumChoices, o \in OldestChoices, cls \in ClassSets : Extend(b, num, o, cls)
-  \/ \E b \in FullBlocks, num \in NumChoices, o \in OldestChoices, cls \in ClassSets : ReplaceSlot(b, num, o, cls)
-  \/ \E b \in FullBlocks, num \in NumChoices, o \in OldestChoices, cls \in ClassSets : PreserveSlot(b, num, o, cls)
-  \/ \E b \in FullBlocks, num \in NumChoices, o \in OldestChoices, cls \in ClassSets : RejectedFull(b, num, o, cls)
-  \/ \E d \in Deltas, num \in NumChoices, bc \in BaseChoices, o \in OldestChoices, cls \in ClassSets : Delta(d, num, bc, o, cls)
-  \/ \E d \in Deltas, num \in NumChoices, bc \in BaseChoices, o \in OldestChoices, cls \in ClassSets : RejectedDelta(d, num, bc, o, cls)
-  \/ \E num \in NumChoices, o \in OldestChoices, cls \in ClassSets : NoChange(num, o, cls)
-  \/ \E num \in NumChoices, o \in OldestChoices, cls \in ClassSets : RejectedNoChange(num, o, cls)
-  \/ \E o \in 1..(MaxHead + 2) : AdvanceTo(o)
+(* one named top-level disjunct per case of the code (used with -coverage: every case must be
+   reached) *)
+BootstrapAny == \E b \in FullBlocks, num \in NumChoices, o \in OldestChoices, cls \in ClassSets : Bootstrap(b, num, o, cls)
+ExtendAny == \E b \in FullBlocks, num \in NumChoices, o \in OldestChoices, cls \in ClassSets : Extend(b, num, o, cls)
+ReplaceSlotAny == \E b \in FullBlocks, num \in NumChoices, o \in OldestChoices, cls \in ClassSets : ReplaceSlot(b, num, o, cls)
+PreserveSlotAny == \E b \in FullBlocks, num \in NumChoices, o \in OldestChoices, cls \in ClassSets : PreserveSlot(b, num, o, cls)
+RejectedFullAny == \E b \in FullBlocks, num \in NumChoices, o \in OldestChoices, cls \in ClassSets : RejectedFull(b, num, o, cls)
+DeltaAny == \E d \in Deltas, num \in NumChoices, bc \in BaseChoices, o \in OldestChoices, cls \in ClassSets : Delta(d, num, bc, o, cls)
+RejectedDeltaAny == \E d \in Deltas, num \in NumChoices, bc \in BaseChoices, o \in OldestChoices, cls \in ClassSets : RejectedDelta(d, num, bc, o, cls)
+NoChangeAny == \E num \in NumChoices, o \in OldestChoices, cls \in ClassSets : NoChange(num, o, cls)
+RejectedNoChangeAny == \E num \in NumChoices, o \in OldestChoices, cls \in ClassSets : RejectedNoChange(num, o, cls)
+AdvanceToAny == \E o \in 1..(MaxHead + 2) : AdvanceTo(o)
+SnapshotAny == \E n \in 1..(MaxHead + 1) : Snapshot(n)
+HeadAdvanceAny == \E v \in Variants : HeadAdvance(v)
 
 (* The same transitions up to stuttering, for fast exhaustive search: a call that the case
    analysis rejects or turns into a no-op leaves every variable of `view` unchanged
@@ -438,7 +440,10 @@ PollerNext ==
   \/ \E u \in Updates, fail \in BOOLEAN : ByNumResp(u, fail)
 
 Next == StorageNext \/ EnvNext
-NextNamed == StorageNextNamed \/ EnvNext
+NextNamed ==
+  \/ BootstrapAny \/ ExtendAny \/ ReplaceSlotAny \/ PreserveSlotAny \/ RejectedFullAny
+  \/ DeltaAny \/ RejectedDeltaAny \/ NoChangeAny \/ RejectedNoChangeAny \/ AdvanceToAny
+  \/ SnapshotAny \/ HeadAdvanceAny \/ HeadRevert
 NextPoller == PollerNext \/ EnvNext
 
 Spec == Init /\ [][Next]_vars
